@@ -30,7 +30,7 @@ BLOCK = {'py': 4096, 'c': 16384}
 
 def bounds(tier, seed):
     q = tier == 'quick'
-    return {'deviations': 1 if q else 2, 'all_chunkings_upto_units': 10, 'documents': len(documents()), 'padded_boundaries': [4096, 8192, 16384],
+    return {'deviations': '2 for inputs <= 16 units, else 1' if q else 2, 'all_chunkings_upto_units': 10, 'documents': len(documents()), 'padded_boundaries': [4096, 8192, 16384],
             'quick_slice': 'stream forms other than utf-8 binary and text: cut positions with index % 4 == seed % 4' if q else None}
 
 
@@ -341,7 +341,8 @@ def plan(tier, seed):
     jobs = []
     jobs += [('pad', 4096, i) for i in range(len(padded(4096)))]
     jobs += [('pad', 16384, i) for i in range(len(padded(16384)))]
-    jobs += [('doc', i, 1 if q else 2, (4, seed % 4) if q else None) for i in range(len(documents()))]
+    # quick: two deviations for inputs of <= 16 units, one for longer ones; thorough: two everywhere
+    jobs += [('doc', i, (2 if len(documents()[i][1]) <= 16 else 1) if q else 2, (4, seed % 4) if q else None) for i in range(len(documents()))]
     jobs += [('bytes', i, 1 if q else 2) for i in range(len(byte_documents()))]
     return jobs
 
